@@ -39,10 +39,13 @@ CHECKS["C39"] = dict(
             dict(spec="MCBitVector.tla", cfg="MCBitVectorRich.cfg", workers=8, timeout=900, thorough_only=True)],
     gen=dict(
         quick=[dict(mode="edges", spec="BitVectorGen.tla", cfg="BitVectorGenAllSet.cfg", depth=5, max=700, name="allset-edges"),
+               # the all-set test with exactly one clear bit at EVERY position, lengths around the word sizes 64..512
+               dict(mode="edges", spec="BitVectorGen.tla", cfg="BitVectorGenAllSetWord.cfg", depth=3, max=3500, name="allset-word-edges", timeout=900),
                dict(mode="edges", spec="BitVectorGen.tla", cfg="BitVectorGenOpEdgesQuick.cfg", depth=5, max=1500, name="op-edges"),
                dict(mode="sim", spec="BitVectorGen.tla", cfg="BitVectorGenSim.cfg", depth=5, num=12, max=600, name="walks"),
                dict(mode="sim", spec="BitVectorGen.tla", cfg="BitVectorGenBig.cfg", depth=5, num=8, max=150, salt=1, name="walks-big")],
         thorough=[dict(mode="edges", spec="BitVectorGen.tla", cfg="BitVectorGenAllSet.cfg", depth=5, name="allset-edges"),
+                  dict(mode="edges", spec="BitVectorGen.tla", cfg="BitVectorGenAllSetWordT.cfg", depth=4, max=12000, name="allset-word-edges", timeout=1500),
                   dict(mode="edges", spec="BitVectorGen.tla", cfg="BitVectorGenOpEdges.cfg", depth=5, max=30000, timeout=1500, name="op-edges"),
                   dict(mode="sim", spec="BitVectorGen.tla", cfg="BitVectorGenSim.cfg", depth=8, num=80, max=5000, name="walks"),
                   dict(mode="sim", spec="BitVectorGen.tla", cfg="BitVectorGenBig.cfg", depth=8, num=60, max=3000, salt=1, name="walks-big")]),
